@@ -15,7 +15,7 @@ from pyvc.spec import And, Concat, Floor, ForAll, If, Implies, IrrLib, Len, Not,
 @contract
 class EconomicsAddOnsCalculate(Contract):
     key = "geophires_x/EconomicsAddOns.py::EconomicsAddOns.Calculate"
-    property_ids = ("C04",)
+    property_ids = ("C04", "C11")
     params = dict(self=ObjAt("model.addeconomics"), model=ObjAt("model"))
     result = None
     sizes = (2, (3, 2))
@@ -24,6 +24,10 @@ class EconomicsAddOnsCalculate(Contract):
         "EconomicsAddOns.Calculate precondition (call site Model.Calculate, after Economics.Calculate): lifetime >= 1, "
         "construction years >= 1, annual energy series have one entry per operating year, price series at least that long",
     )
+
+    def ensure_filter(self, pid):
+        pref = {"C04": "c04_", "C11": "c11_"}[pid]
+        return lambda name: name.startswith(pref)
 
     def configs(self):
         from geophires_x.OptionList import EndUseOptions, PlantType
@@ -51,7 +55,7 @@ class EconomicsAddOnsCalculate(Contract):
              "model.addeconomics.FixedInternalRate.value": Real,
              "model.addeconomics.discount_initial_year_cashflow.value": Bool,
              "model.addeconomics.AddOnPaybackPeriod.value": Real}
-        for n in ("TotalkWhProduced", "NetkWhProduced", "HeatkWhProduced", "PumpingkWh"):
+        for n in ("TotalkWhProduced", "NetkWhProduced", "HeatkWhProduced", "PumpingkWh", "HeatkWhExtracted"):
             h[f"model.surfaceplant.{n}.value"] = NdOf("real", n=L_b)
         for n in self.LISTS:
             h[f"model.addeconomics.{n}.value"] = ListOf("real", n=(2 if size is not None else None))
@@ -64,7 +68,8 @@ class EconomicsAddOnsCalculate(Contract):
         L, cy = sp.plant_lifetime.value, sp.construction_years.value
         return {"lifetime": L >= 1, "construction_years": cy >= 1,
                 "annual_series_lengths": And(Len(sp.TotalkWhProduced.value) == L, Len(sp.NetkWhProduced.value) == L,
-                                             Len(sp.HeatkWhProduced.value) == L, Len(sp.PumpingkWh.value) == L),
+                                             Len(sp.HeatkWhProduced.value) == L, Len(sp.PumpingkWh.value) == L,
+                                             Len(sp.HeatkWhExtracted.value) == L),
                 "price_lengths": And(Len(E.ElecPrice.value) >= L, Len(E.HeatPrice.value) >= L),
                 "payback_unset": s.self.AddOnPaybackPeriod.value == 0.0}
 
@@ -187,4 +192,18 @@ class EconomicsAddOnsCalculate(Contract):
             pb != 0.0, And(jpb >= 1, jpb < n, self.turn(ac, jpb)))
         out["c04_addon_payback_not_available_when_never_turning_positive"] = Implies(
             ForAll(1, n, lambda j: Not(self.turn(ac, j))), pb == 0.0)
+        # ---- C11: 'an add-on with zero cost and zero gains changes nothing' (add-on totals enter additively)
+        zero = And(*[T[t] == 0.0 for t in self.TOTALS])
+        out["c11_zero_addon_leaves_energy_series_unchanged"] = Implies(zero, ForAll(0, L, lambda j: And(
+            sp.NetkWhProduced.value[j] == osp.NetkWhProduced.value[j],
+            sp.TotalkWhProduced.value[j] == osp.TotalkWhProduced.value[j],
+            sp.HeatkWhProduced.value[j] == osp.HeatkWhProduced.value[j])))
+        out["c11_zero_addon_leaves_capex_and_opex_unchanged"] = Implies(zero, And(
+            A.AdjustedProjectCAPEX.value == E.CCap.value, A.AdjustedProjectOPEX.value == E.Coam.value))
+        out["c11_zero_addon_has_zero_cash_flow"] = Implies(zero, ForAll(0, n, lambda k: Acf[k] == 0.0))
+        base_e = (lambda j: osp.NetkWhProduced.value[j]) if has_elec else (lambda j: 0.0)
+        base_h = (lambda j: osp.HeatkWhProduced.value[j]) if has_heat else (lambda j: 0.0)
+        out["c11_zero_addon_project_cash_flow_is_the_base_project's"] = Implies(zero, And(
+            ForAll(0, cy, lambda k: P[k] == -1.0 * E.CCap.value / cy),
+            ForAll(0, L, lambda j: P[cy + j] == (base_e(j) * EP[j] + base_h(j) * HP[j]) / 1000000.0 - E.Coam.value)))
         return out
